@@ -48,6 +48,8 @@ def render_tree(x, rng=None):
         return 7
     if k == "str":
         return "s"
+    if k == "flt":
+        return 7.0          # == the int atom, same hash, not an int
     if k == "arr":
         from . import render as R
         return R.zeros(x["shape"], st["np"].float32 if x["dt"] == "f" else st["np"].int32)
@@ -413,6 +415,8 @@ def tree_str(x):
         return "7"
     if k == "str":
         return "'s'"
+    if k == "flt":
+        return "7.0"
     if k == "arr":
         return f"{x['dt']}{x['shape']}"
     if k == "none":
